@@ -85,6 +85,29 @@ def kernels(ctx, prog):
 def audits(ctx, prog, only=None):
     A = Auditor(ctx, prog, only=only)
 
+    # ---------------------------------------------------------------- the serde route is the validating conversion
+    # (derived Deserialize with `try_from`: a value is produced only by the type's own TryFrom, whose obligations follow)
+    for ty, conv in (('CoreDID', r'<CoreDID as TryFrom<(\w+::)*(DID|BaseDIDUrl)>>::try_from$'), ('DIDUrl', r'<DIDUrl as TryFrom<(\w+::)*String>>::try_from$')):
+        fs = prog.find(r'^%s::_::<impl at [^>]*>::deserialize$' % ('did' if ty == 'CoreDID' else 'did_url'))
+        nm = '%s::deserialize/only-through-the-validating-conversion' % ty
+        if not A.wants(nm):
+            continue
+        if len(fs) != 1:
+            ctx.add(Ob(nm, 'M', INCONCLUSIVE, detail='derived Deserialize of %s: %d candidates' % (ty, len(fs))))
+            continue
+        dpaths, dex = A.paths(fs[0], inline=r'deserialize::\{closure')
+
+        def r_de(p, conv=conv, ty=ty):
+            if p.kind != 'return':
+                return 'panic ' + p.msg
+            if not p.is_ok():
+                return None
+            cv = [c for c in p.calls if re.search(conv, c.name) and p.took(c, 'Ok')]
+            if len(cv) != 1:
+                return 'a %s is produced without its validating TryFrom succeeding (e.g. a transparent / field-wise derive)' % ty
+            return None if strip(p.term(p.payload())) == ('field', cv[0].ret, 0, 'Ok') else 'the value handed back is not what the conversion produced'
+        A.require(nm, dpaths, r_de, replay={'scenario': 'did_syntax', 'cex': {'only': '[serde]'}})
+
     # ---------------------------------------------------------------- constructors of the plain DID type validate
     def validated(p, base_pred):
         """Ok path: returned CoreDID wraps a base that passed check_validity"""
@@ -531,6 +554,81 @@ def segment_scanner(ctx, prog):
                    detail='%s: segment %r; native: %s' % (what, text, res.get('detail', '')[:200]), cex={'text': text}, replay=rep, functions=funcs))
 
 
+def validator_scanner(ctx, prog):
+    """CoreDID::valid_method_id / valid_method_name as scanners: on every printable-ASCII string of length 0..4 the result equals the
+    W3C ABNF reading (complete escapes made of two hex digits, idchars, non-empty; names: lower-case letters and digits).  The ids that
+    end in ':' are the known finding's region (decided by the K harnesses) and are excluded here."""
+    import panicmodels
+    import strmodels
+    from execu import State
+    from replay import run_replay
+    A = Auditor(ctx, prog)
+
+    def hexd(b):
+        return z3.Or(z3.And(z3.UGE(b, 48), z3.ULE(b, 57)), z3.And(z3.UGE(b, 65), z3.ULE(b, 70)), z3.And(z3.UGE(b, 97), z3.ULE(b, 102)))
+
+    def alnum(b):
+        return z3.Or(z3.And(z3.UGE(b, 48), z3.ULE(b, 57)), z3.And(z3.UGE(b, 65), z3.ULE(b, 90)), z3.And(z3.UGE(b, 97), z3.ULE(b, 122)))
+
+    def idch(b):
+        return z3.Or(alnum(b), b == 46, b == 45, b == 95, b == 58)
+
+    def lowdig(b):
+        return z3.Or(z3.And(z3.UGE(b, 48), z3.ULE(b, 57)), z3.And(z3.UGE(b, 97), z3.ULE(b, 122)))
+    for which, rx in (('id', r'did::<impl at [^>]*>::valid_method_id$'), ('name', r'did::<impl at [^>]*>::valid_method_name$')):
+        f = prog.one(rx)
+        for N in (0, 1, 2, 3, 4):
+            st = State()
+            arr = z3.Array('txt', z3.BitVecSort(64), z3.BitVecSort(8))
+            st.mem['txt'] = VBytes(arr, z3.BitVecVal(0, 64), z3.BitVecVal(N, 64))
+            bs = [z3.Select(arr, z3.BitVecVal(i, 64)) for i in range(N)]
+            for b in bs:
+                st.pc.append(z3.And(z3.UGT(b, 32), z3.ULT(b, 127)))
+            if which == 'id' and N:
+                st.pc.append(bs[-1] != 58)   # outside the known finding's region (trailing ':')
+            name = 'valid_method_%s/scanner=ABNF[len %d]' % (which, N)
+            paths, ex = A.paths(f, args=[VRef('txt')], state=st, inline=r'.', unwind=N + 2, max_depth=10,
+                                extra_models=strmodels.STR_MODELS + panicmodels.PANIC_MODELS)
+
+            def valid(i):
+                if i >= N:
+                    return z3.BoolVal(True)
+                esc = z3.And(hexd(bs[i + 1]), hexd(bs[i + 2]), valid(i + 3)) if i + 2 < N else z3.BoolVal(False)
+                return z3.If(bs[i] == 37, esc, z3.And(idch(bs[i]), valid(i + 1)))
+            if which == 'id':
+                ref = z3.And(z3.BoolVal(N > 0), valid(0))
+            else:
+                ref = z3.And(z3.BoolVal(N > 0), *[lowdig(b) for b in bs])
+            bad = None
+            for p in paths:
+                if p.kind != 'return':
+                    bad = bad or (p, 'panic: ' + p.msg, z3.BoolVal(True))
+                    continue
+                okv = z3.BoolVal(p.is_ok()) if isinstance(p.val, VAgg) else None
+                if okv is None:
+                    bad = bad or (p, 'result is not a Result', z3.BoolVal(True))
+                elif p.consistent(okv != ref):
+                    bad = bad or (p, 'accepts / rejects differently from the ABNF', okv != ref)
+            funcs = [short(f.name)]
+            if not bad:
+                ctx.add(Ob(name, 'M', HELD, queries=len(paths), functions=funcs, bounds='printable-ASCII strings of %d bytes%s' % (N, ' not ending in ":"' if which == 'id' else ''),
+                           sample='%d paths, each equal to the reference' % len(paths)))
+                continue
+            p, what, cond = bad
+            sol = z3.Solver()
+            sol.add(*p.st.pc)
+            sol.add(cond)
+            if sol.check() != z3.sat:
+                ctx.add(Ob(name, 'M', INCONCLUSIVE, detail=what + ' (no model)', functions=funcs))
+                continue
+            m = sol.model()
+            text = ''.join(chr(m.eval(b, model_completion=True).as_long()) for b in bs)
+            rep = {'scenario': 'did_validator', 'cex': {'text': text, 'which': which}}
+            res = run_replay(rep)
+            ctx.add(Ob(name, 'M', VIOLATED if res.get('reproduced') else INCONCLUSIVE,
+                       detail='%s: %r; native: %s' % (what, text, res.get('detail', '')[:200]), cex={'text': text}, replay=rep, functions=funcs))
+
+
 def parser_cursor(ctx):
     """The third-party did_url_parser (the version identity_did is locked to, MIR dumped from the cargo registry source): after
     parse_method_id succeeds the cursor - which becomes the *end* index of the method-specific id - lies inside the input.
@@ -663,6 +761,7 @@ def main(ctx):
     guarded(ctx, 'constructor / setter audit', 'M', lambda: audits(ctx, prog))
     guarded(ctx, 'Eq / Ord / Hash of DID URLs', 'M', lambda: eq_ord_hash(ctx, prog))
     guarded(ctx, 'URL segment scanner', 'M', lambda: segment_scanner(ctx, prog))
+    guarded(ctx, 'method id / name validators as scanners', 'M', lambda: validator_scanner(ctx, prog))
     guarded(ctx, 'third-party parser cursor', 'M', lambda: parser_cursor(ctx))
     if os.environ.get('VERIF_SKIP_K') != '1':
         guarded(ctx, 'local validators', 'K', lambda: kani_part(ctx))
